@@ -31,6 +31,7 @@ type Program struct {
 	axioms    []*Axiom
 	lemmas    []*Lemma
 	tables    []*TableSpec
+	ghosts    map[string]*Ghost
 	contracts map[string]*FuncContract // key: pkgpath.Name or pkgpath.(Recv).Name
 	externals map[string]*FuncContract // key: pkgpath.Name / pkgpath.(Recv).Name of dependency
 	ifaces    map[string]*FuncContract // key: pkgpath.Type.Method
@@ -111,6 +112,12 @@ func loadProgram(repo string, patterns []string) (*Program, error) {
 			P.specs[s.Name] = append(P.specs[s.Name], s)
 		}
 		P.axioms = append(P.axioms, sf.Axioms...)
+		for _, g := range sf.Ghosts {
+			if P.ghosts == nil {
+				P.ghosts = map[string]*Ghost{}
+			}
+			P.ghosts[g.Name] = g
+		}
 		P.lemmas = append(P.lemmas, sf.Lemmas...)
 		P.tables = append(P.tables, sf.Tables...)
 		for _, c := range sf.Contracts {
